@@ -279,7 +279,9 @@ static Verdict runCase(const Case& c, Info& info)
         }
         else
             ++nDontCare;
-        if (g.valid)
+        // type and bytes are compared for every packet that is not the library's marker for a rejected payload (32-bit type 0):
+        // also for frames of message type 0, whose packets are not "valid" but still report what is on the wire
+        if (g.valid || g.type32 != 0)
         {
             VF_CHECK(g.msgType == w.hdr.msgType, where.str() << ": message type " << int(g.msgType) << " wire " << int(w.hdr.msgType));
             VF_CHECK(g.rawType == m.hdr.payloadType, where.str() << ": payload type " << int(g.rawType) << " wire " << int(m.hdr.payloadType));
@@ -325,7 +327,7 @@ static rc::Gen<Case> genCase(int tier)
         c.version = *rc::gen::weightedOneOf<uint8_t>({{2, rc::gen::just<uint8_t>(1)}, {1, range<uint8_t>(1, 255)}});
         c.dev = *rc::gen::weightedOneOf<uint16_t>({{1, rc::gen::element<uint16_t>(1, 2)}, {2, anyInt<uint16_t>()}});
         c.stream = *rc::gen::weightedOneOf<uint8_t>({{1, rc::gen::element<uint8_t>(0, 5)}, {2, anyInt<uint8_t>()}});
-        c.msgType = *rc::gen::weightedOneOf<uint8_t>({{6, rc::gen::just<uint8_t>(1)}, {4, rc::gen::just<uint8_t>(3)}, {2, rc::gen::element<uint8_t>(2, 0xFF)}, {1, range<uint8_t>(1, 255)}});
+        c.msgType = *rc::gen::weightedOneOf<uint8_t>({{6, rc::gen::just<uint8_t>(1)}, {4, rc::gen::just<uint8_t>(3)}, {2, rc::gen::element<uint8_t>(2, 0xFF, 0)}, {1, range<uint8_t>(0, 255)}});
         c.seq = *anyInt<uint16_t>();
         int n = *range<int>(0, tier ? 8 : 5);
         for (int i = 0; i < n; ++i)
